@@ -84,6 +84,11 @@ type StandardUpgradeableBeaconState struct {
 	common.BeaconState
 }
 
+// Unwrap returns the current fork-specific state, for code that needs to discover optional state interfaces.
+func (s *StandardUpgradeableBeaconState) Unwrap() common.BeaconState {
+	return s.BeaconState
+}
+
 func (s *StandardUpgradeableBeaconState) UpgradeMaybe(ctx context.Context, spec *common.Spec, epc *common.EpochsContext) error {
 	slot, err := s.BeaconState.Slot()
 	if err != nil {
